@@ -1,4 +1,4 @@
-//! usage: miri-pool <scenario 0..3> <threads> [<hash seed> [c05|c12]]
+//! usage: miri-pool <scenario 0..4> <threads> [<hash seed> [c05|c12]]
 //! Prints `DIGEST <hex>` : FNV of every observable bit pattern of the scenario
 //! (per-epoch losses, accuracies, final parameters, validate result, predict_batch outputs
 //! in order).
@@ -49,6 +49,15 @@ fn scenario(id: usize) -> (Network, usize, usize, usize, usize, usize, usize) {
             net.dense(2, Activation::Tanh, false, None);
             net.set_optimizer(optimizer::RMSprop::create(0.01, 0.9, 1e-8, None, Some(0.5), true));
             (net, 4, 2, 5, 2, 3, 5)
+        }
+        4 => {
+            // one batch of 24 samples: the per-sample map is split into leaves of up to
+            // three samples, differently for different pool widths
+            let mut net = Network::new(tensor::Shape::Single(3));
+            net.dense(4, Activation::Tanh, true, None);
+            net.dense(2, Activation::Linear, false, None);
+            net.set_optimizer(optimizer::SGDM::create(0.05, 0.9, 0.1, Some(0.01)));
+            (net, 3, 2, 24, 24, 3, 5)
         }
         _ => {
             let mut net = Network::new(tensor::Shape::Single(4));
@@ -142,7 +151,7 @@ fn main() {
         println!("DIGEST {:016x}", if ok { 0x0c12_0c12_0c12_0c12u64 } else { 0xbad0_bad0_bad0_bad0u64 });
         return;
     }
-    let epochs = if id == 3 { 1 } else { 2 };
+    let epochs = if id == 3 || id == 4 { 1 } else { 2 };
     let (tl, vl, va) = net.learn(&xr, &yr, Some((&vxr, &vyr, 1000)), batch, epochs, None);
     for x in tl.iter().chain(vl.iter()).chain(va.iter()) {
         eat(*x);
